@@ -18,12 +18,12 @@ RULE = ('closed-form stigmatic systems drawn over radii of either sign, indices 
         'k=-n^2, ellipsoidal refracting surface k=-1/n^2 with immersed image, spherical mirror at its centre of curvature, '
         'spherical refracting surface at its centre / at its aplanatic points (virtual image: decided by back-extension); '
         'hexapolar + rim pupil points; non-trivial = f-number <= 4; distinct = distinct case hash')
-TIERS = {'quick': dict(shards=6, cases=50), 'thorough': dict(shards=16, cases=600)}
-MIN_NONTRIVIAL = {'quick': 60, 'thorough': 1000}
-MIN_EVALS = {'rays-meet-image-point': 60, 'equal-optical-paths': 60, 'wavefront-zero': 30, 'strehl-one': 15,
+TIERS = {'quick': dict(shards=8, cases=110), 'thorough': dict(shards=16, cases=1500)}
+MIN_NONTRIVIAL = {'quick': 150, 'thorough': 1500}
+MIN_EVALS = {'rays-exist': 60, 'rays-meet-image-point': 60, 'equal-optical-paths': 60, 'wavefront-zero': 30, 'strehl-one': 15,
              'virtual-image-back-extension': 10, 'virtual-image-equal-paths': 10}
 ASSUMPTIONS = ['tolerances: 1e-9 x focal scale for positions and paths, 1e-6 waves, |Strehl-1| <= 1e-6',
-               'PSF sampling 64 on a 256 grid (grid - sampling even; odd differences are a C11 finding)',
+               'PSF samplings/grids of both parities (64/256, 64/255, 33/128, 32/129, 65/256)',
                'virtual-image families are decided on the surface record by back-extension; wavefront/Strehl clauses are not evaluated for them']
 ANCHORS = [('optiland.geometries.standard', 'StandardGeometry.distance'),
            ('optiland.geometries.standard', 'StandardGeometry.surface_normal'),
@@ -72,6 +72,10 @@ def gen_case(rng, tier, i):
         d_obj, d_img = (near, far) if swap else (far, near)
         R = -a * (1 - e * e)
         na = min(0.85, 1.0 / (2 * speed))
+        if d_obj > a:
+            # from the far focus, rays steeper than atan(b / (a e)) meet the ellipsoid beyond its equator, i.e. not on
+            # the vertex sheet that the prescription describes: geometric limit of this configuration
+            na = min(na, 0.9 * math.sin(math.atan(math.sqrt(1 - e * e) / e)))
         spec.update(obj_t=d_obj, surfaces=[dict(type='standard', radius=R, conic=-e * e, medium='mirror', t=-d_img, stop=True),
                                            dict(type='standard', radius='inf', t=0.0, medium='air')],
                     aperture=['objectNA', na], field_type='object_height', fields=[[0.0, 0, 0]])
@@ -156,7 +160,8 @@ def gen_case(rng, tier, i):
                     aperture=['objectNA', na], field_type='object_height', fields=[[0.0, 0, 0]])
         info.update(fno=n1 / (2 * na), scale=abs(R), image=[0.0, 0.0, -s2], real=False, n1=n1, n2=n2)
     nr = int(rng.integers(3, 9))
-    return dict(spec=spec, info=info, rings=nr, wl=wl)
+    psf = [[64, 256], [64, 255], [33, 128], [32, 129], [65, 256]][int(rng.integers(5))]
+    return dict(spec=spec, info=info, rings=nr, wl=wl, psf=psf)
 
 
 def check_case(case, rec):
@@ -176,6 +181,9 @@ def check_case(case, rec):
     if info['real']:
         x, y, z, opd = sg.x[-1], sg.y[-1], sg.z[-1], sg.opd[-1]
         ok = np.isfinite(x) & np.isfinite(y) & np.isfinite(opd)
+        # the apertures generated here stay inside the geometric limit of each configuration: every launched ray exists
+        rec.check('rays-exist', bool(ok.all()), msg=f'{fam}: {int((~ok).sum())} of {len(ok)} rays of a stigmatic system inside '
+                                                    f'its geometric aperture limit were lost (f/{info["fno"]:.2f})')
         if ok.sum() < 2:
             rec.cls('too-few-rays-exist')
             return
@@ -198,7 +206,9 @@ def check_case(case, rec):
                       msg=f'{fam}: reported wavefront error {w:.3e} waves for a stigmatic system')
             if case['rings'] >= 6:
                 from optiland.psf import FFTPSF
-                psf = FFTPSF(lens, (0.0, 0.0), wl, num_rays=64, grid_size=256)
+                ns, gs = case.get('psf', [64, 256])
+                rec.cls(f'psf-{ns}/{gs}')
+                psf = FFTPSF(lens, (0.0, 0.0), wl, num_rays=ns, grid_size=gs)
                 st = float(psf.strehl_ratio())
                 rec.check('strehl-one', abs(st - 1) <= 1e-6, resid=abs(st - 1), tol=1e-6,
                           msg=f'{fam}: Strehl ratio {st!r} for a stigmatic system')
@@ -207,6 +217,8 @@ def check_case(case, rec):
         x, y, z = sg.x[1], sg.y[1], sg.z[1]
         Ld, Md, Nd, opd = sg.L[1], sg.M[1], sg.N[1], sg.opd[1]
         ok = np.isfinite(x) & np.isfinite(Ld)
+        rec.check('rays-exist', bool(ok.all()), msg=f'{fam}: {int((~ok).sum())} of {len(ok)} rays inside the geometric aperture '
+                                                    f'limit were lost at the surface')
         if ok.sum() < 2:
             rec.cls('too-few-rays-exist')
             return
